@@ -1,6 +1,43 @@
-"""library contracts (tier A) -- filled in later"""
+"""library contracts (tier A): special iterator kinds, `with open(...)`, itertools / collections"""
+from .smt import T, TRUE, FALSE, I, NOT, AND, OR, EQ, CMP, ADD, ITE
+from .sym import Num, Bool, Opaque, Ref, IterCell, NONE
+
+
 def U(msg):
     from .interp import Unsupported
     return Unsupported(msg)
-def with_enter(ip, s, st): raise U("with statement")
-def special_next(ip, st, it, cell, default): raise U("special iterator")
+
+
+def with_enter(ip, s, st):
+    raise U("with statement")
+
+
+def copy_special(cell, **kw):
+    nc = IterCell(cell.src, cell.cursor, cell.name, cell.limit)
+    for a in ("kind", "nextval", "step", "stop", "has_stop"):
+        if hasattr(cell, a):
+            setattr(nc, a, getattr(cell, a))
+    for k, v in kw.items():
+        setattr(nc, k, v)
+    return nc
+
+
+def special_next(ip, st, it, cell, default):
+    if cell.kind == "arith":
+        # islice(itertools.count(0), start, stop, step): next member of the progression, or StopIteration at / after stop
+        has = OR(NOT(cell.has_stop), CMP("<", cell.nextval, cell.stop))
+        outs = []
+        ex = st.fork(NOT(has), "E.")
+        if default is not None:
+            outs.append((ex, default))
+        elif ip.may_catch(ex, "StopIteration"):
+            ip.raise_(ex, "StopIteration")
+        else:
+            ip.emit("safety", "next-on-nonempty", ex, FALSE)
+        ok = st.fork(has, "V.")
+        ok.heap[it.cid] = copy_special(cell, nextval=ADD(cell.nextval, I(cell.step)))
+        outs.append((ok, Num(cell.nextval)))
+        ip.assumptions.add("library contract (tier A): islice(itertools.count(0), start, stop, step) delivers start, "
+                           "start+step, ... below stop")
+        return outs
+    raise U("special iterator " + str(cell.kind))
